@@ -1,77 +1,28 @@
-(* C07, order for streams that switch transport (after the repair "close through the socket when the
-   stream is in fallback state"): in every run that never hands an item to the socket while a won
-   markWorking has not yet produced its polling event (the window of the known defect
-   C07:fallback-overtakes-unpublished-wakeup), EVERY stream is delivered in order with its end mark last —
-   whatever the fault pattern and however often streams switch from the queue to the socket. *)
+(* C07, the order statement at full strength (after the two repairs: "close through the socket when the
+   stream is in fallback state" and "empty the queue before a socket item is handed to its stream"):
+   for EVERY schedule, any number of streams and every pattern of shared-memory exhaustion / queue-full,
+   every stream is delivered in the order its writer handed its items over, with the end mark last.
+
+   Why it holds: a stream only ever switches from the queue to the socket (sticky fallback; the close
+   follows the data); the consumer hands a socket item to its stream only at a moment at which the queue
+   is empty, so every queue item of that stream (all of them were published before the socket item was
+   written) has been delivered; each transport is FIFO (MuxProofs). *)
 From Coq Require Import List ZArith Lia Bool Arith Permutation.
 From Shm Require Import Gen.Consts Model.Wakeup Model.Mux Proofs.WakeupProofs Proofs.MuxProofs.
 Import ListNotations.
 Open Scope nat_scope.
 
-(* ---------- vocabulary ---------- *)
-Definition lhandx (x : mspc) : list xev :=
-  match x with LCas e | LWait e | LWrite e => [fst e] | _ => [] end.
-(* everything written or queued to be written to the connection, in the order it will arrive *)
-Definition pipe (st : mst) : list xev := msock st ++ lhandx (msl st) ++ map fst (msendch st).
-
-(* a writer that won markWorking and whose polling event is not in the pipe yet *)
-Definition owingb (p : mlocal) : bool := match mpc_ p with MWr | MSlow | MEv => true | _ => false end.
-Definition ow1 (p : mlocal) : nat := if owingb p then 1 else 0.
-Definition nowing (st : mst) : nat := sumf ow1 (mprods st).
-Definition wake (p : mlocal) : bool :=
-  match mpc_ p with MMark | MWr | MSlow | MEv | MRel | MNotify => true | _ => false end.
-
-Definition is_xpoll (e : xev) : bool := match e with XPoll => true | _ => false end.
-Definition npollx (l : list xev) : nat := length (filter is_xpoll l).
-(* a polling event precedes every item of stream i in the pipe *)
-Fixpoint guard (i : nat) (l : list xev) : bool :=
-  match l with
-  | [] => false
-  | XPoll :: _ => true
-  | XItem x :: r => if of_stream i x then false else guard i r
-  end.
-Definition not_of (i : nat) (e : xev) : bool := match e with XItem x => negb (of_stream i x) | XPoll => true end.
-Definition noitems (i : nat) (l : list xev) : bool := forallb (not_of i) l.
 Definition has_q (i : nat) (q : list item) : bool := existsb (of_stream i) q.
-Definition will_drain (c : mcpc) : bool := match c with KIdle | KSizeH true => false | _ => true end.
-Definition low (c : mcpc) : bool := match c with KIdle | KSizeT | KSizeH _ => true | _ => false end.
-
 Definition fS (i : nat) (l : list entry) : list item := filter (of_stream i) (projV VS l).
 Definition fQ (i : nat) (l : list entry) : list item := filter (of_stream i) (projV VQ l).
 Definition fA (i : nat) (l : list entry) : list item := filter (of_stream i) (map fst l).
 
-(* the undelivered queue items of stream i are certain to be delivered before any socket item of i *)
-Definition G (i : nat) (c : mcpc) (P : list xev) (n : nat) : Prop :=
-  will_drain c = true \/ guard i P = true \/ (n > 0 /\ noitems i P = true).
-
-(* the step hands an item to the socket path (writeFallback / close through the socket) *)
-Definition hands_sock (st : mst) (w : who) : bool :=
-  match w with
-  | WProd i =>
-    match nth_error (mprods st) i with
-    | Some p =>
-      match mpc_ p, mtodo p with
-      | MIdle, OFlush shmok _ :: _ => negb (closed p) && (infb p || negb shmok)
-      | MIdle, OClose qfull :: _ => negb (closed p) && (infb p || qfull)
-      | _, _ => false
-      end
-    | None => false
-    end
-  | _ => false
-  end.
-(* the run never does so while a polling event is owed *)
-Fixpoint no_window (sched : list who) (st : mst) : bool :=
-  match sched with
-  | [] => true
-  | w :: r => negb (hands_sock st w && (0 <? nowing st)) && no_window r (mstep st w)
-  end.
-
-Record OX (q : list item) (P : list xev) (fl : bool) (c : mcpc) (pr : list mlocal) (F D : list entry) : Prop := {
-  x_flag : low c = true -> fl = true -> npollx P + sumf ow1 pr > 0;
-  x_wake : forall i p, nth_error pr i = Some p -> wake p = true -> fS i F = [];
+Record OX (q : list item) (pr : list mlocal) (F D : list entry) : Prop := {
+  (* a stream that has handed something to the socket never uses the queue again *)
   x_phase : forall i p, nth_error pr i = Some p -> fS i F <> [] -> infb p = true \/ closed p = true;
-  x_guar : forall i p, nth_error pr i = Some p -> mpc_ p <> MMark -> has_q i q = true -> G i c P (sumf ow1 pr);
+  (* once a socket item of a stream has been delivered the queue holds nothing of that stream *)
   x_sd : forall i, fS i D <> [] -> has_q i q = false;
+  (* per stream, handed over = queue items then socket items; delivered likewise *)
   x_fl : forall i, fA i F = fQ i F ++ fS i F;
   x_dl : forall i, fA i D = fQ i D ++ fS i D }.
 
@@ -85,30 +36,6 @@ Proof.
   - rewrite nth_error_set_nth_neq in Hq by auto. right; auto.
 Qed.
 
-Lemma guard_app_l i a b : guard i a = true -> guard i (a ++ b) = true.
-Proof. induction a as [|[|x] a IH]; simpl; intros H; auto; try discriminate. destruct (of_stream i x); auto. Qed.
-Lemma guard_insert i a b : guard i (a ++ b) = true -> guard i (a ++ XPoll :: b) = true.
-Proof. induction a as [|[|x] a IH]; simpl; intros H; auto. destruct (of_stream i x); auto. Qed.
-Lemma noitems_app i a b : noitems i (a ++ b) = noitems i a && noitems i b.
-Proof. unfold noitems. apply forallb_app. Qed.
-Lemma noitems_guard_insert i a b : noitems i (a ++ b) = true -> guard i (a ++ XPoll :: b) = true.
-Proof.
-  induction a as [|[|x] a IH]; simpl; intros H; auto.
-  apply andb_true_iff in H. destruct H as [Hx H]. apply negb_true_iff in Hx. rewrite Hx. auto.
-Qed.
-Lemma noitems_npoll_guard i l : noitems i l = true -> npollx l > 0 -> guard i l = true.
-Proof.
-  induction l as [|[|x] l IH]; simpl; intros H Hn; auto.
-  - unfold npollx in Hn; simpl in Hn; lia.
-  - apply andb_true_iff in H. destruct H as [Hx H]. apply negb_true_iff in Hx. rewrite Hx. apply IH; auto.
-Qed.
-Lemma noitems_of_filter i l : filter (of_stream i) (xitems l) = [] -> noitems i l = true.
-Proof.
-  induction l as [|[|x] l IH]; simpl; intros H; auto.
-  destruct (of_stream i x) eqn:E; simpl in *; [discriminate|auto].
-Qed.
-Lemma npollx_app a b : npollx (a ++ b) = npollx a + npollx b.
-Proof. unfold npollx. rewrite filter_app, app_length. reflexivity. Qed.
 Lemma has_q_app i a b : has_q i (a ++ b) = has_q i a || has_q i b.
 Proof. unfold has_q. apply existsb_app. Qed.
 Lemma has_q_filter i q : has_q i q = false <-> filter (of_stream i) q = [].
@@ -132,231 +59,61 @@ Proof. intros E Hn. unfold of_stream. apply Nat.eqb_neq. congruence. Qed.
 Lemma of_stream_own i x : fst x = i -> of_stream i x = true.
 Proof. intros E. unfold of_stream. apply Nat.eqb_eq. auto. Qed.
 
-(* ---------- G ---------- *)
-Lemma G_drain i c P n : will_drain c = true -> G i c P n.
-Proof. left; auto. Qed.
-Lemma G_mono i c P n n' : n <= n' -> G i c P n -> G i c P n'.
-Proof. intros Hn [H|[H|[H1 H2]]]; [left|right; left|right; right]; auto. split; auto; lia. Qed.
-Lemma G_insert_poll i c a b n n' : G i c (a ++ b) n -> G i c (a ++ XPoll :: b) n'.
-Proof.
-  intros [H|[H|[H1 H2]]]; [left; auto | right; left; apply guard_insert; auto |
-                           right; left; apply noitems_guard_insert; auto].
-Qed.
-Lemma G_app_other i c P e n : not_of i e = true -> G i c P n -> G i c (P ++ [e]) n.
-Proof.
-  intros He [H|[H|[H1 H2]]]; [left; auto | right; left; apply guard_app_l; auto | right; right].
-  split; auto. rewrite noitems_app, H2. simpl. rewrite He. reflexivity.
-Qed.
-Lemma G_app_own i c P e : G i c P 0 -> G i c (P ++ [e]) 0.
-Proof. intros [H|[H|[H1 H2]]]; [left; auto | right; left; apply guard_app_l; auto | lia]. Qed.
-Lemma G_cons i c c' P n :
-  (will_drain c = true -> will_drain c' = true) -> G i c P n -> G i c' P n.
-Proof. intros Hc [H|[H|H]]; [left; auto | right; left; auto | right; right; auto]. Qed.
-
-(* ---------- preservation, at the level of the components ---------- *)
-Ltac cases_j Hp Hj :=
-  let Hne := fresh "Hne" in let Hj' := fresh "Hj'" in
-  destruct (nth_set_cases _ _ _ _ _ _ Hp Hj) as [[-> ->]|[Hne Hj']].
-
-Lemma sum_same pr i p p' : nth_error pr i = Some p -> ow1 p' = ow1 p -> sumf ow1 (set_nth i p' pr) = sumf ow1 pr.
-Proof. intros Hp E. pose proof (sumf_set_nth ow1 pr i p p' Hp). lia. Qed.
-
-(* a writer moves its program counter only *)
-Lemma ox_pc q P fl c pr F D i p p' :
-  OX q P fl c pr F D -> nth_error pr i = Some p ->
-  ow1 p' = ow1 p -> (wake p' = true -> wake p = true) -> infb p' = infb p -> closed p' = closed p ->
-  (mpc_ p' <> MMark -> mpc_ p <> MMark) ->
-  OX q P fl c (set_nth i p' pr) F D.
-Proof.
-  intros [Hf Hw Hph Hg Hsd Hfl Hdl] Hp Eo Ew Ei Ec Em.
-  constructor; rewrite ?(sum_same pr i p p' Hp Eo); auto.
-  - intros j pj Hj Hwj. cases_j Hp Hj; eauto.
-  - intros j pj Hj Hne0. cases_j Hp Hj; [rewrite Ei, Ec|]; eauto.
-  - intros j pj Hj Hm Hq. cases_j Hp Hj; eauto.
-Qed.
-
-Definition pipe_ok (P : list xev) (F D : list entry) : Prop :=
-  forall i, fS i F = fS i D ++ filter (of_stream i) (xitems P).
-
-Lemma wake_noitems q P fl c pr F D i p :
-  OX q P fl c pr F D -> pipe_ok P F D -> nth_error pr i = Some p -> wake p = true -> noitems i P = true.
-Proof.
-  intros H Hpi Hp Hw. apply noitems_of_filter. pose proof (x_wake _ _ _ _ _ _ _ H i p Hp Hw) as E.
-  rewrite (Hpi i) in E. apply app_eq_nil in E. tauto.
-Qed.
-
-(* markWorking fails: the flag is up *)
-Lemma ox_mark_fail q P c pr F D i p p' :
-  OX q P true c pr F D -> pipe_ok P F D -> nth_error pr i = Some p ->
-  mpc_ p = MMark -> mpc_ p' = MIdle -> infb p' = infb p -> closed p' = closed p ->
-  OX q P true c (set_nth i p' pr) F D.
-Proof.
-  intros H Hpi Hp Em Em' Ei Ec. pose proof H as [Hf Hw Hph Hg Hsd Hfl Hdl].
-  assert (Eo : ow1 p' = ow1 p) by (unfold ow1, owingb; rewrite Em, Em'; reflexivity).
-  constructor; rewrite ?(sum_same pr i p p' Hp Eo); auto.
-  - intros j pj Hj Hwj. cases_j Hp Hj; eauto. unfold wake in Hwj. rewrite Em' in Hwj. discriminate.
-  - intros j pj Hj Hne0. cases_j Hp Hj; [rewrite Ei, Ec|]; eauto.
-  - intros j pj Hj Hm Hq. cases_j Hp Hj; eauto.
-    (* the loser itself: somebody else's wake-up is on its way, or the consumer is still draining *)
-    assert (Hni : noitems i P = true).
-    { eapply wake_noitems; eauto. unfold wake. rewrite Em. reflexivity. }
-    destruct (will_drain c) eqn:Ed; [left; auto|].
-    assert (Hl : low c = true) by (destruct c as [| | | | | |[|]|]; simpl in *; auto; discriminate).
-    specialize (Hf Hl eq_refl).
-    destruct (sumf ow1 pr) eqn:En.
-    + right; left. apply noitems_npoll_guard; auto. lia.
-    + right; right. split; auto. lia.
-Qed.
-
-(* markWorking succeeds *)
-Lemma ox_mark_win q P c pr F D i p p' :
-  OX q P false c pr F D -> pipe_ok P F D -> nth_error pr i = Some p ->
-  mpc_ p = MMark -> mpc_ p' = MWr -> infb p' = infb p -> closed p' = closed p ->
-  OX q P true c (set_nth i p' pr) F D.
-Proof.
-  intros H Hpi Hp Em Em' Ei Ec. pose proof H as [Hf Hw Hph Hg Hsd Hfl Hdl].
-  assert (Es : sumf ow1 (set_nth i p' pr) = S (sumf ow1 pr)).
-  { pose proof (sumf_set_nth ow1 pr i p p' Hp) as E.
-    assert (A1 : ow1 p = 0) by (unfold ow1, owingb; rewrite Em; reflexivity).
-    assert (A2 : ow1 p' = 1) by (unfold ow1, owingb; rewrite Em'; reflexivity). lia. }
-  constructor; rewrite ?Es; auto.
-  - intros; lia.
-  - intros j pj Hj Hwj. cases_j Hp Hj; eauto. apply (Hw i p Hp). unfold wake. rewrite Em. reflexivity.
-  - intros j pj Hj Hne0. cases_j Hp Hj; [rewrite Ei, Ec|]; eauto.
-  - intros j pj Hj Hm Hq. cases_j Hp Hj.
-    + right; right. split; [lia|]. eapply wake_noitems; eauto. unfold wake. rewrite Em. reflexivity.
-    + eapply G_mono; [|eapply Hg; eauto]. lia.
-Qed.
-
-(* an owed polling event enters the pipe (fast path: end of the socket; slow path: end of sendCh) *)
-Lemma ox_poll q a b fl c pr F D i p p' :
-  OX q (a ++ b) fl c pr F D -> nth_error pr i = Some p ->
-  ow1 p = 1 -> ow1 p' = 0 -> (wake p' = true -> wake p = true) -> infb p' = infb p -> closed p' = closed p ->
-  mpc_ p <> MMark ->
-  OX q (a ++ XPoll :: b) fl c (set_nth i p' pr) F D.
-Proof.
-  intros [Hf Hw Hph Hg Hsd Hfl Hdl] Hp E1 E0 Ew Ei Ec Em.
-  assert (Es : S (sumf ow1 (set_nth i p' pr)) = sumf ow1 pr).
-  { pose proof (sumf_set_nth ow1 pr i p p' Hp) as E. lia. }
-  assert (En : npollx (a ++ XPoll :: b) = S (npollx (a ++ b))).
-  { rewrite !npollx_app. unfold npollx at 2. simpl. fold (npollx b). lia. }
-  constructor; auto.
-  - intros Hl Hfl'. specialize (Hf Hl Hfl'). lia.
-  - intros j pj Hj Hwj. cases_j Hp Hj; eauto.
-  - intros j pj Hj Hne0. cases_j Hp Hj; [rewrite Ei, Ec|]; eauto.
-  - intros j pj Hj Hm Hq. cases_j Hp Hj; eapply G_insert_poll; eauto.
-Qed.
-
 Definition f1 (j : nat) (x : item) : list item := filter (of_stream j) [x].
 Lemma f1_other i j x : fst x = i -> j <> i -> f1 j x = [].
 Proof. intros E Hn. unfold f1. simpl. rewrite (of_stream_other i j x E Hn). reflexivity. Qed.
 Lemma f1_own i x : fst x = i -> f1 i x = [x].
 Proof. intros E. unfold f1. simpl. rewrite (of_stream_own i x E). reflexivity. Qed.
 
-(* an element is published in the queue (Flush / close through shared memory) *)
-Lemma ox_put_q q P fl c pr F D i p p' x :
-  OX q P fl c pr F D -> pipe_ok P F D -> nth_error pr i = Some p -> fst x = i ->
-  mpc_ p = MIdle -> infb p = false -> closed p = false -> mpc_ p' = MMark ->
-  OX (q ++ [x]) P fl c (set_nth i p' pr) (F ++ [(x, VQ)]) D.
+
+Ltac cases_j Hp Hj :=
+  let Hne := fresh "Hne" in let Hj' := fresh "Hj'" in
+  destruct (nth_set_cases _ _ _ _ _ _ Hp Hj) as [[-> ->]|[Hne Hj']].
+
+(* ---------- preservation, at the level of the components ---------- *)
+Lemma ox_pc q pr F D i p p' :
+  OX q pr F D -> nth_error pr i = Some p -> infb p' = infb p -> closed p' = closed p ->
+  OX q (set_nth i p' pr) F D.
 Proof.
-  intros [Hf Hw Hph Hg Hsd Hfl Hdl] Hpi Hp Hx Em Ei Ec Em'.
-  assert (Eo : ow1 p' = ow1 p) by (unfold ow1, owingb; rewrite Em, Em'; reflexivity).
+  intros [Hph Hsd Hfl Hdl] Hp Ei Ec. constructor; auto.
+  intros j pj Hj Hne0. cases_j Hp Hj; [rewrite Ei, Ec|]; eauto.
+Qed.
+
+(* an element is published in the queue (Flush / close through shared memory) *)
+Lemma ox_put_q q pr F D i p p' x :
+  OX q pr F D -> (forall j, fS j F = [] -> fS j D = []) -> nth_error pr i = Some p -> fst x = i ->
+  infb p = false -> closed p = false ->
+  OX (q ++ [x]) (set_nth i p' pr) (F ++ [(x, VQ)]) D.
+Proof.
+  intros [Hph Hsd Hfl Hdl] Hsub Hp Hx Ei Ec.
   assert (HS : fS i F = []).
   { destruct (fS i F) eqn:E; auto. exfalso. destruct (Hph i p Hp) as [A|A]; congruence. }
-  constructor; rewrite ?(sum_same pr i p p' Hp Eo); auto.
-  - intros j pj Hj Hwj. rewrite fS_app, fS_one_q, app_nil_r. cases_j Hp Hj; eauto.
+  constructor; auto.
   - intros j pj Hj Hne0. rewrite fS_app, fS_one_q, app_nil_r in Hne0. cases_j Hp Hj; [congruence|eauto].
-  - intros j pj Hj Hm Hq. cases_j Hp Hj; [congruence|].
-    rewrite has_q_app in Hq. simpl in Hq. rewrite (of_stream_other i j x Hx Hne) in Hq. simpl in Hq.
-    rewrite orb_false_r in Hq. eauto.
   - intros j Hne0. rewrite has_q_app. simpl. rewrite orb_false_r.
     rewrite (Hsd j Hne0). simpl. destruct (Nat.eq_dec j i) as [->|Hne]; [|apply (of_stream_other i j x Hx Hne)].
-    exfalso. rewrite (Hpi i) in HS. apply app_eq_nil in HS. tauto.
+    exfalso. apply Hne0. apply Hsub. exact HS.
   - intros j. rewrite fA_app, fQ_app, fS_app, fS_one_q, app_nil_r, fA_one, fQ_one_q, Hfl.
     fold (f1 j x). destruct (Nat.eq_dec j i) as [->|Hne].
     + rewrite HS, !app_nil_r. reflexivity.
     + rewrite (f1_other i j x Hx Hne), !app_nil_r. reflexivity.
 Qed.
 
-(* an item is handed to the socket path while no polling event is owed *)
-Lemma ox_put_s q P fl c pr F D i p p' x :
-  OX q P fl c pr F D -> nth_error pr i = Some p -> fst x = i -> sumf ow1 pr = 0 ->
-  mpc_ p = MIdle -> mpc_ p' = MWait -> (infb p' = true \/ closed p' = true) ->
-  OX q (P ++ [XItem x]) fl c (set_nth i p' pr) (F ++ [(x, VS)]) D.
+(* an item is handed to the socket path (writeFallback / close through the socket) *)
+Lemma ox_put_s q pr F D i p p' x :
+  OX q pr F D -> nth_error pr i = Some p -> fst x = i -> (infb p' = true \/ closed p' = true) ->
+  OX q (set_nth i p' pr) (F ++ [(x, VS)]) D.
 Proof.
-  intros [Hf Hw Hph Hg Hsd Hfl Hdl] Hp Hx Hz Em Em' Hic.
-  assert (Eo : ow1 p' = ow1 p) by (unfold ow1, owingb; rewrite Em, Em'; reflexivity).
-  assert (En : npollx (P ++ [XItem x]) = npollx P) by (rewrite npollx_app; unfold npollx at 2; simpl; lia).
-  constructor; rewrite ?(sum_same pr i p p' Hp Eo), ?En; auto.
-  - intros j pj Hj Hwj. cases_j Hp Hj.
-    + unfold wake in Hwj. rewrite Em' in Hwj. discriminate.
-    + rewrite fS_app, fS_one_s. fold (f1 j x). rewrite (f1_other i j x Hx Hne), app_nil_r. eauto.
+  intros [Hph Hsd Hfl Hdl] Hp Hx Hic. constructor; auto.
   - intros j pj Hj Hne0. cases_j Hp Hj; auto.
     rewrite fS_app, fS_one_s in Hne0. fold (f1 j x) in Hne0. rewrite (f1_other i j x Hx Hne), app_nil_r in Hne0. eauto.
-  - intros j pj Hj Hm Hq. cases_j Hp Hj.
-    + rewrite Hz. apply G_app_own. rewrite <- Hz. apply (Hg i p Hp); auto. congruence.
-    + apply G_app_other; [|eauto]. simpl. rewrite (of_stream_other i j x Hx Hne). reflexivity.
   - intros j. rewrite fA_app, fQ_app, fS_app, fQ_one_s, app_nil_r, fA_one, fS_one_s, Hfl, app_assoc. reflexivity.
 Qed.
 
-(* the consumer takes a polling event from the connection *)
-Lemma ox_take_poll q P fl pr F D :
-  OX q (XPoll :: P) fl KIdle pr F D -> OX q P fl KPopH pr F D.
+(* the consumer pops an element (inside handlePolling or in front of a socket item) *)
+Lemma ox_pop x q pr F D : OX (x :: q) pr F D -> OX q pr F (D ++ [(x, VQ)]).
 Proof.
-  intros [Hf Hw Hph Hg Hsd Hfl Hdl]. constructor; auto.
-  - simpl; discriminate.
-  - intros. apply G_drain. reflexivity.
-Qed.
-
-Lemma G_idle_own i x P n : of_stream i x = true -> ~ G i KIdle (XItem x :: P) n.
-Proof.
-  intros Ho [H|[H|[_ H]]]; simpl in *; try discriminate; rewrite Ho in H; simpl in H; discriminate.
-Qed.
-
-(* the consumer takes a fallback-data / stream-close event: by then no element of that stream is left in the queue *)
-Lemma ox_take_item q P fl pr F D x :
-  OX q (XItem x :: P) fl KIdle pr F D -> pipe_ok (XItem x :: P) F D ->
-  (exists p, nth_error pr (fst x) = Some p) ->
-  OX q P fl KIdle pr F (D ++ [(x, VS)]).
-Proof.
-  intros H Hpi [p Hp]. pose proof H as [Hf Hw Hph Hg Hsd Hfl Hdl].
-  assert (Hnone : has_q (fst x) q = false).
-  { destruct (has_q (fst x) q) eqn:Eq; auto. exfalso.
-    assert (Ho : of_stream (fst x) x = true) by (apply of_stream_own; reflexivity).
-    assert (Hm : mpc_ p <> MMark).
-    { intros Em. assert (Hwk : wake p = true) by (unfold wake; rewrite Em; reflexivity).
-      pose proof (Hw _ p Hp Hwk) as E. rewrite (Hpi (fst x)) in E. apply app_eq_nil in E. destruct E as [_ E].
-      simpl in E. rewrite Ho in E. discriminate. }
-    exact (G_idle_own _ x P _ Ho (Hg _ p Hp Hm Eq)). }
-  constructor; auto.
-  - intros j pj Hj Hm Hq. specialize (Hg j pj Hj Hm Hq).
-    destruct (of_stream j x) eqn:Eo; [exfalso; exact (G_idle_own j x P _ Eo Hg)|].
-    destruct Hg as [Hd|[Hd|[Hn Hd]]]; simpl in *; try discriminate; rewrite Eo in Hd; simpl in Hd.
-    + right; left; auto.
-    + right; right; auto.
-  - intros j Hne0. rewrite fS_app, fS_one_s in Hne0. simpl in Hne0.
-    destruct (of_stream j x) eqn:Eo.
-    + unfold of_stream in Eo. apply Nat.eqb_eq in Eo. subst j. exact Hnone.
-    + rewrite app_nil_r in Hne0. auto.
-  - intros j. rewrite fA_app, fQ_app, fS_app, fQ_one_s, app_nil_r, fA_one, fS_one_s, Hdl, app_assoc. reflexivity.
-Qed.
-
-(* the consumer moves without touching queue, flag or connection *)
-Lemma ox_cons q P fl c c' pr F D :
-  (low c' = true -> low c = true) -> (will_drain c = true -> will_drain c' = true) ->
-  OX q P fl c pr F D -> OX q P fl c' pr F D.
-Proof.
-  intros Hl Hd [Hf Hw Hph Hg Hsd Hfl Hdl]. constructor; auto.
-  intros. eapply G_cons; eauto.
-Qed.
-
-(* the consumer pops an element *)
-Lemma ox_pop x q P fl c pr F D :
-  OX (x :: q) P fl c pr F D -> OX q P fl KPopH pr F (D ++ [(x, VQ)]).
-Proof.
-  intros [Hf Hw Hph Hg Hsd Hfl Hdl]. constructor; auto.
-  - simpl; discriminate.
-  - intros. apply G_drain. reflexivity.
+  intros [Hph Hsd Hfl Hdl]. constructor; auto.
   - intros j Hne0. rewrite fS_app, fS_one_q, app_nil_r in Hne0. specialize (Hsd j Hne0).
     simpl in Hsd. apply orb_false_iff in Hsd. tauto.
   - intros j. rewrite fA_app, fQ_app, fS_app, fS_one_q, app_nil_r, fA_one, fQ_one_q, Hdl.
@@ -366,129 +123,70 @@ Proof.
     specialize (Hsd j Hne0). simpl in Hsd. rewrite Eo in Hsd. discriminate.
 Qed.
 
-Lemma ox_flag0 q P fl c pr F D : OX q P fl c pr F D -> OX q P false KSizeT pr F D.
+(* the socket item reaches its stream: the queue is empty at this moment *)
+Lemma ox_deliver x pr F D : OX [] pr F D -> OX [] pr F (D ++ [(x, VS)]).
 Proof.
-  intros [Hf Hw Hph Hg Hsd Hfl Hdl]. constructor; auto.
-  - intros _ E; discriminate.
-  - intros. apply G_drain. reflexivity.
-Qed.
-Lemma ox_flag1 q P fl c pr F D : OX q P fl c pr F D -> OX q P true KPopH pr F D.
-Proof.
-  intros [Hf Hw Hph Hg Hsd Hfl Hdl]. constructor; auto.
-  - simpl; discriminate.
-  - intros. apply G_drain. reflexivity.
-Qed.
-Lemma ox_sizet q P fl pr F D :
-  OX q P fl KSizeT pr F D -> OX q P fl (KSizeH (match q with [] => true | _ => false end)) pr F D.
-Proof.
-  intros [Hf Hw Hph Hg Hsd Hfl Hdl]. constructor; auto.
-  intros i p Hp Hm Hq. destruct q; [discriminate|]. apply G_drain. reflexivity.
+  intros [Hph Hsd Hfl Hdl]. constructor; auto.
+  intros j. rewrite fA_app, fQ_app, fS_app, fQ_one_s, app_nil_r, fA_one, fS_one_s, Hdl, app_assoc. reflexivity.
 Qed.
 
 (* ---------- the invariant on states ---------- *)
-Definition OXs (st : mst) : Prop :=
-  OX (queue st) (pipe st) (mflag st) (mcons st) (mprods st) (flog st) (deliv st).
+Definition OXs (st : mst) : Prop := OX (queue st) (mprods st) (flog st) (deliv st).
 Record OInv (st : mst) : Prop := { o_m : MInv st; o_x : OXs st }.
 
-Lemma lhand_x x : lhand x = xitems (lhandx x).
-Proof. destruct x; reflexivity. Qed.
-Lemma pipe_ok_inv st : MInv st -> pipe_ok (pipe st) (flog st) (deliv st).
+Lemma sub_ok st : MInv st -> forall j, fS j (flog st) = [] -> fS j (deliv st) = [].
 Proof.
-  intros H i. unfold fS. rewrite <- (m_fs st H), filter_app. f_equal. f_equal.
-  unfold pipe. rewrite !xitems_app, lhand_x. reflexivity.
+  intros H j E. unfold fS in *. rewrite <- (m_fs st H), filter_app in E. apply app_eq_nil in E. tauto.
 Qed.
 
-Ltac side Epc :=
-  first [ reflexivity
-        | solve [unfold ow1, owingb, wake; simpl; rewrite ?Epc; simpl;
-                 first [reflexivity | discriminate | congruence | (intros; discriminate) | (intros; congruence)]]
-        | solve [auto] ].
-
-Lemma oxs_pstep i st :
-  MInv st -> OXs st -> (hands_sock st (WProd i) = true -> nowing st = 0) -> OXs (mpstep i st).
+Lemma oxs_pstep i st : MInv st -> OXs st -> OXs (mpstep i st).
 Proof.
-  intros HM H Hw. pose proof (pipe_ok_inv st HM) as Hpi. unfold mpstep.
+  intros HM H. pose proof (sub_ok st HM) as Hsub. pose proof H as H'. unfold OXs in H'. unfold mpstep.
   destruct (nth_error (mprods st) i) as [p|] eqn:Hp; auto.
-  unfold hands_sock in Hw. rewrite Hp in Hw.
   destruct (mpc_ p) eqn:Epc.
   - (* MIdle *)
     destruct (mtodo p) as [|[shmok qfull|qfull] r] eqn:Et; auto.
     + destruct (closed p) eqn:Ecl.
-      { unfold OXs, pipe; simpl. apply ox_pc with (p := p); auto; side Epc. }
+      { unfold OXs; simpl. apply ox_pc with (p := p); auto. }
       destruct (infb p || negb shmok) eqn:Efb.
-      * unfold OXs; simpl.
-        replace (pipe _) with (pipe st ++ [XItem (i, DData (nxt p))])
-          by (unfold pipe; simpl; rewrite map_app, <- !app_assoc; reflexivity).
-        apply ox_put_s with (p := p); auto; try side Epc; try (apply Hw; reflexivity).
+      * unfold OXs; simpl. apply ox_put_s with (p := p); auto.
       * apply orb_false_iff in Efb. destruct Efb as [Efb _]. destruct qfull.
-        -- unfold OXs, pipe; simpl. apply ox_pc with (p := p); auto; simpl; try side Epc; congruence.
-        -- unfold OXs; simpl. change (pipe _) with (pipe st). apply ox_put_q with (p := p); auto; side Epc.
+        -- unfold OXs; simpl. apply ox_pc with (p := p); auto.
+        -- unfold OXs; simpl. apply ox_put_q with (p := p); auto.
     + destruct (closed p) eqn:Ecl.
-      { unfold OXs, pipe; simpl. apply ox_pc with (p := p); auto; side Epc. }
+      { unfold OXs; simpl. apply ox_pc with (p := p); auto. }
       destruct (infb p || qfull) eqn:Efb.
-      * unfold OXs; simpl.
-        replace (pipe _) with (pipe st ++ [XItem (i, DEnd)])
-          by (unfold pipe; simpl; rewrite map_app, <- !app_assoc; reflexivity).
-        apply ox_put_s with (p := p); auto; try side Epc; try (apply Hw; reflexivity).
+      * unfold OXs; simpl. apply ox_put_s with (p := p); auto.
       * apply orb_false_iff in Efb. destruct Efb as [Efb _].
-        unfold OXs; simpl. change (pipe _) with (pipe st). apply ox_put_q with (p := p); auto; side Epc.
-  - (* MMark *)
-    unfold OXs in H. destruct (mflag st) eqn:Ef.
-    + unfold OXs, pipe; simpl. rewrite Ef. apply ox_mark_fail with (p := p); auto; side Epc.
-    + unfold OXs; simpl. change (pipe _) with (pipe st). apply ox_mark_win with (p := p); auto; side Epc.
-  - (* MWr *)
-    destruct (mwriting st); unfold OXs; simpl; change (pipe _) with (pipe st);
-      apply ox_pc with (p := p); auto; side Epc.
-  - (* MSlow: the polling event goes onto sendCh *)
-    unfold OXs; simpl.
-    replace (pipe _) with (pipe st ++ XPoll :: [])
-      by (unfold pipe; simpl; rewrite map_app, <- !app_assoc; reflexivity).
-    apply ox_poll with (p := p); auto; try side Epc. rewrite app_nil_r. exact H.
-  - (* MEv: the polling event is written to the connection *)
-    unfold OXs; simpl.
-    replace (pipe _) with (msock st ++ XPoll :: (lhandx (msl st) ++ map fst (msendch st)))
-      by (unfold pipe; simpl; rewrite <- app_assoc; reflexivity).
-    apply ox_poll with (p := p); auto; side Epc.
-  - unfold OXs; simpl; change (pipe _) with (pipe st). apply ox_pc with (p := p); auto; side Epc.
-  - unfold OXs; simpl; change (pipe _) with (pipe st). apply ox_pc with (p := p); auto; side Epc.
-  - destruct (existsb (Nat.eqb i) (acks st)); auto.
-    unfold OXs; simpl; change (pipe _) with (pipe st). apply ox_pc with (p := p); auto; side Epc.
+        unfold OXs; simpl. apply ox_put_q with (p := p); auto.
+  - destruct (mflag st); unfold OXs; simpl; apply ox_pc with (p := p); auto.
+  - destruct (mwriting st); unfold OXs; simpl; apply ox_pc with (p := p); auto.
+  - unfold OXs; simpl; apply ox_pc with (p := p); auto.
+  - unfold OXs; simpl; apply ox_pc with (p := p); auto.
+  - unfold OXs; simpl; apply ox_pc with (p := p); auto.
+  - unfold OXs; simpl; apply ox_pc with (p := p); auto.
+  - destruct (existsb (Nat.eqb i) (acks st)); auto. unfold OXs; simpl; apply ox_pc with (p := p); auto.
 Qed.
 
-Lemma oxs_cstep st : MInv st -> OXs st -> OXs (mcstep st).
+Lemma oxs_cstep st : OXs st -> OXs (mcstep st).
 Proof.
-  intros HM H. pose proof (pipe_ok_inv st HM) as Hpi. unfold mcstep. unfold OXs in *.
-  destruct (mcons st) eqn:Ec.
-  - (* KIdle *)
-    destruct (msock st) as [|[|x] r] eqn:Es.
-    + rewrite Ec. unfold pipe in *. rewrite Es in *. exact H.
-    + unfold pipe in *; simpl. rewrite Es in H. simpl in H. apply ox_take_poll. exact H.
-    + unfold pipe in *; simpl. rewrite Es in H, Hpi. simpl in H, Hpi. rewrite Ec.
-      apply ox_take_item; auto.
-      assert (Hin : In x (map fst (flog st))).
-      { apply (projV_incl VS). rewrite <- (m_fs st HM), Es. apply in_or_app. right. simpl. left; reflexivity. }
-      destruct (m_valid st HM x Hin) as [p [Hp _]]. exists p; exact Hp.
-  - simpl. change (pipe _) with (pipe st). eapply ox_cons; [| |exact H]; simpl; auto.
-  - destruct (queue st) eqn:Eq; simpl; change (pipe _) with (pipe st); rewrite ?Eq; (eapply ox_cons; [| |exact H]; simpl; auto).
-  - destruct (queue st) as [|x q] eqn:Eq.
-    + simpl; change (pipe _) with (pipe st). rewrite Eq. eapply ox_cons; [| |exact H]; simpl; auto.
-    + simpl. change (pipe _) with (pipe st). eapply ox_pop. exact H.
-  - simpl. change (pipe _) with (pipe st). eapply ox_flag0. exact H.
-  - simpl. change (pipe _) with (pipe st). apply ox_sizet. exact H.
-  - destruct empty; simpl; change (pipe _) with (pipe st); (eapply ox_cons; [| |exact H]; simpl; auto).
-  - simpl. change (pipe _) with (pipe st). eapply ox_flag1. exact H.
+  intros H. unfold mcstep. unfold OXs in *.
+  destruct (mcons st) eqn:Ec; simpl; auto.
+  - destruct (msock st) as [|[|x] r]; simpl; auto.
+  - destruct (queue st) eqn:Eq; simpl; rewrite ?Eq; auto.
+  - destruct (queue st) as [|x q] eqn:Eq; simpl; [rewrite Eq; auto|]. apply ox_pop. exact H.
+  - destruct empty; simpl; auto.
+  - destruct (queue st) as [|e q] eqn:Eq; simpl; [|rewrite Eq; auto]. rewrite Eq. apply ox_deliver. exact H.
+  - destruct (queue st) as [|e q] eqn:Eq; simpl; [rewrite Eq; auto|]. apply ox_pop. exact H.
 Qed.
 
 Lemma oxs_sstep st : OXs st -> OXs (msstep st).
 Proof.
-  intros H. unfold msstep.
-  destruct (msl st) as [|e|e|e|o] eqn:El.
-  - destruct (msendch st) as [|e r] eqn:Es; [exact H|].
-    unfold OXs, pipe in *. rewrite El, Es in H. simpl in *. exact H.
-  - destruct (mwriting st); unfold OXs, pipe in *; rewrite El in H; simpl in *; exact H.
-  - destruct (mnotif st); [|exact H]. unfold OXs, pipe in *; rewrite El in H; simpl in *; exact H.
-  - unfold OXs, pipe in *; rewrite El in H; simpl in *. rewrite <- app_assoc. simpl. exact H.
-  - unfold OXs, pipe in *; rewrite El in H; simpl in *. exact H.
+  intros H. unfold msstep. unfold OXs in *.
+  destruct (msl st) as [|e|e|e|o]; simpl; auto.
+  - destruct (msendch st); simpl; auto.
+  - destruct (mwriting st); simpl; auto.
+  - destruct (mnotif st); simpl; auto.
 Qed.
 
 Lemma oinit progs : OInv (minit progs).
@@ -496,18 +194,16 @@ Proof.
   constructor; [apply minit_inv|]. unfold OXs; simpl. constructor; simpl; auto; try discriminate.
 Qed.
 
-Lemma ostep st w :
-  OInv st -> (hands_sock st w = true -> nowing st = 0) -> OInv (mstep st w).
+Lemma ostep st w : OInv st -> OInv (mstep st w).
 Proof.
-  intros [HM HX] Hw. constructor; [apply mstep_inv; exact HM|].
+  intros [HM HX]. constructor; [apply mstep_inv; exact HM|].
   destruct w; simpl; [apply oxs_pstep | apply oxs_cstep | apply oxs_sstep]; auto.
 Qed.
 
-Lemma orun sched : forall st, OInv st -> no_window sched st = true -> OInv (mrun sched st).
+Theorem orun progs sched : OInv (mrun sched (minit progs)).
 Proof.
-  induction sched as [|w r IH]; simpl; intros st H Hn; auto.
-  apply andb_true_iff in Hn. destruct Hn as [Hn1 Hn2]. apply IH; auto. apply ostep; auto.
-  intros Hh. rewrite Hh in Hn1. simpl in Hn1. apply negb_true_iff in Hn1. apply Nat.ltb_ge in Hn1. lia.
+  unfold mrun. generalize (oinit progs). generalize (minit progs).
+  induction sched as [|w r IH]; simpl; intros st H; auto. apply IH, ostep, H.
 Qed.
 
 (* ---------- from the invariant to the statement ---------- *)
@@ -532,11 +228,14 @@ Proof.
   subst l2. rewrite El, map_app, rev_app_distr. simpl. apply Nat.eqb_refl.
 Qed.
 
+
 Lemma oinv_ordered st s : OInv st -> ordered s st = true.
 Proof.
   intros [HM HX]. unfold OXs in HX.
-  pose proof (x_dl _ _ _ _ _ _ _ HX s) as Hd. pose proof (x_fl _ _ _ _ _ _ _ HX s) as Hf.
-  pose proof (pipe_ok_inv st HM s) as Hs.
+  pose proof (x_dl _ _ _ _ HX s) as Hd. pose proof (x_fl _ _ _ _ HX s) as Hf.
+  assert (Hs : fS s (flog st) = fS s (deliv st) ++
+               filter (of_stream s) (sockpart st ++ lhand (msl st) ++ xitems (map fst (msendch st)))).
+  { unfold fS. rewrite <- (m_fs st HM), filter_app. reflexivity. }
   assert (Hq : fQ s (flog st) = fQ s (deliv st) ++ filter (of_stream s) (queue st)).
   { unfold fQ. rewrite <- (m_fq st HM), filter_app. reflexivity. }
   unfold fA in Hd, Hf.
@@ -544,23 +243,11 @@ Proof.
   - apply (split_ordered st s (filter (of_stream s) (queue st) ++ fS s (flog st))); auto.
     rewrite Hd, Hf, Hq, app_nil_r, <- app_assoc. reflexivity.
   - assert (Hne : fS s (deliv st) <> []) by (rewrite Es; discriminate).
-    pose proof (x_sd _ _ _ _ _ _ _ HX s Hne) as Hn. apply has_q_filter in Hn.
-    apply (split_ordered st s (filter (of_stream s) (xitems (pipe st)))); auto.
+    pose proof (x_sd _ _ _ _ HX s Hne) as Hn. apply has_q_filter in Hn.
+    eapply (split_ordered st s); auto.
     rewrite Hd, Hf, Hq, Hn, app_nil_r, Hs, <- app_assoc. reflexivity.
 Qed.
 
-(* THE THEOREM: every stream is delivered in order, end mark last, in every run without the window *)
-Theorem order_without_window progs sched :
-  no_window sched (minit progs) = true ->
-  forall s, ordered s (mrun sched (minit progs)) = true.
-Proof. intros Hn s. apply oinv_ordered. apply orun; [apply oinit | exact Hn]. Qed.
-
-(* the former witness schedule of (a) contains no window: it is covered by the theorem (and was a
-   counterexample to this very statement before the repair: the hypothesis is not what rescues it) *)
-Lemma reg_a_no_window : no_window wit_a_sched (minit wit_a_progs) = true.
-Proof. vm_compute. reflexivity. Qed.
-(* the two remaining witnesses both contain the window *)
-Lemma wit_b_window : no_window wit_b_sched (minit wit_b_progs) = false.
-Proof. vm_compute. reflexivity. Qed.
-Lemma wit_e_window : no_window wit_e_sched (minit wit_e_progs) = false.
-Proof. vm_compute. reflexivity. Qed.
+(* THE THEOREM: the order statement at full strength *)
+Theorem order_holds : order_full.
+Proof. intros progs sched s. apply oinv_ordered, orun. Qed.
